@@ -420,8 +420,48 @@ def int_named_groups(ctx):
         shutil.rmtree(d, ignore_errors=True)
 
 
+def resave_history(ctx):
+    """one path, several saves without deleting the file in between: an evaluator is saved, re-configured in place through its public
+    setters, saved again; then other objects (matchers with different settings, one after the other, each a temporary) are saved to
+    that same path — after every save the file holds the settings of the object that was saved last"""
+    d = VERIF / ".work" / f"c19h_{os.getpid()}"
+    shutil.rmtree(d, ignore_errors=True)
+    d.mkdir(parents=True)
+    p = str(d / "cfg.yaml")
+    inp = {"resave_history": ["evaluator", "set matcher threshold 1/4 -> 3/4", "set_log_group_times(True)", "matchers IOU 1/2, DSC 1/2, IOU 9/10, DSC 1/4 (temporaries)"]}
+    ctx.case(inp, True)
+    ctx.count("resave_histories")
+    try:
+        with quiet():
+            ev = impl.mk_evaluator(E.mk_cfg("UNMATCHED", ["IOU", "DSC"], matcher=E.naive("IOU", (1, 4))))
+            steps = [("saved as constructed", lambda: None),
+                     ("after _set_instance_matcher(threshold 3/4)", lambda: ev._set_instance_matcher(impl.mk_matcher(E.naive("IOU", (3, 4))))),
+                     ("after set_log_group_times(True)", lambda: ev.set_log_group_times(True))]
+            for what, change in steps:
+                change()
+                ev.save_to_config(p)
+                back = impl.Panoptica_Evaluator.load_from_config(p)
+                if settings(back) != settings(ev):
+                    ctx.violation(f"C19 violated: the evaluator was saved to the same path again ({what}); loading the file does not give its current settings", inp,
+                                  key={"kind": "resave-history"})
+                    return
+            for mm, thr in (("IOU", (1, 2)), ("DSC", (1, 2)), ("IOU", (9, 10)), ("DSC", (1, 4)), ("IOU", (1, 3))):
+                impl.mk_matcher(E.naive(mm, thr)).save_to_config(p)          # a temporary: freed right after the call
+                back = impl.NaiveThresholdMatching.load_from_config(p)
+                want = impl.mk_matcher(E.naive(mm, thr))
+                if settings(back) != settings(want):
+                    ctx.violation(f"C19 violated: a matcher ({mm}, threshold {thr[0]}/{thr[1]}) was saved to a path that held another object's configuration; "
+                                  f"loading the file gives {settings(back)}", inp, key={"kind": "resave-history"})
+                    return
+    except Exception as e:
+        ctx.violation(f"C19 violated: saving several configurations to one path raised {type(e).__name__}: {str(e)[:160]}", inp, key={"kind": "resave-history"})
+    finally:
+        shutil.rmtree(d, ignore_errors=True)
+
+
 def run(ctx):
     shipped(ctx)
+    resave_history(ctx)
     int_named_groups(ctx)
     saved_by_name(ctx)
     one_off_default(ctx)
@@ -439,6 +479,8 @@ def replay(ctx, rec):
     i = rec["input"]
     if "cfg" in i:
         one_case(ctx, (i["cfg"], i["groups"], i["global_metrics"], i["flags"]), "replay")
+    elif "resave_history" in i:
+        resave_history(ctx)
     elif "int_named_groups" in i:
         int_named_groups(ctx)
     elif "saved_by_name" in i:
